@@ -848,7 +848,7 @@ def c09(r):
               "its reference; a -race build runs 16 goroutines of mixed calls plus rounds of 8 goroutines reading one fresh shared object, "
               "race reports become events that no action accepts. Session.tla specifies the whole mutable state a client can see (date objects with "
               "their chart convention, chart handles as views, the holiday table) and which call may change which part; TLC checks the frame "
-              "conditions (%s) and enumerates every session of 4 calls (Create / Handle / SetSect / Fix / recovered panic; 17 076), %s of which are "
+              "conditions (%s) and enumerates every session of 4 calls (Create / Handle / SetSect / Fix / Rename / recovered panic; 33 172), %s of which are "
               "executed on real objects with a digest of every accessor of every live object after every call: an object nobody touched and a "
               "holiday day no fix-up touched must show their fresh-state reference. Distinct non-trivial case = distinct schedule, history or session." %
               ("4 processes x 2 calls (12M states) and 3 x 2 with liveness" if thorough else "3 processes x 2 calls x 2 years (97k states)",
